@@ -226,13 +226,15 @@ func init() {
 		e["lat"] = which(a.Latest(b), a, b)
 		as, bs, at, bt := a.String(), b.String(), a.StringTag(), b.StringTag()
 		e["hv"] = helperInt(sem.CompareVersion[string, string](as, bs))
-		e["ht"] = helperInt(sem.CompareTag(at, []byte(bt)))
-		e["ha"] = helperInt(sem.Compare([]byte(at), bs))
+		// []byte arguments live in one buffer the caller refills: the text parsed last by one call
+		// is overwritten by the text the next call parses first
+		e["ht"] = helperInt(sem.CompareTag(at, reused([]byte(bt))))
+		e["ha"] = helperInt(sem.Compare(reused([]byte(at)), bs))
 		e["hx"] = helperInt(sem.CompareVersion[string, string](at, bs))
 		e["hy"] = helperInt(sem.CompareTag(at, bs))
-		lv, err := sem.LatestVersion(as, []byte(bs))
+		lv, err := sem.LatestVersion(as, reused([]byte(bs)))
 		e["lv"] = helperVer(lv, err, a, b)
-		lt, err := sem.LatestTag([]byte(at), bt)
+		lt, err := sem.LatestTag(reused([]byte(at)), bt)
 		e["lt"] = helperVer(lt, err, a, b)
 		la, err := sem.Latest(as, bt)
 		e["la"] = helperVer(la, err, a, b)
